@@ -64,6 +64,25 @@ CLAIMS = {
         note="Known finding D5 (RightTrim mutates shared nodes in place) is reported as KNOWN-FINDING, identified by its structural "
              "signature. The linear-use discipline of un-cached lists is enforced by the machine and is how the combinators use them.",
         technique="Lean 4 frame/invariant proof over operation histories on a slice heap (every growth policy) + two differential streams (operation histories on the real ast/combinator code; parse-level render-at-return probes)"),
+    "C08": dict(
+        text="Machine-checked proof (Lean 4) for every built-in literal parser (rune, op, word, bool, nil, integer, float, duration, char, "
+             "string with both quote kinds, regexp), every byte sequence, every base offset and every position in the file: the model "
+             "of the terminal equals a specification written over the rest of the input (c08_spec); it never panics on construction "
+             "parameters in the documented domain, and the only panic outside it is regexp's documented invalid capturing group "
+             "(c08_total, c08_panic_only_missing_group); a node starts at the offset and ends within the file, an error is positioned "
+             "between the offset and end of input (c08_node_span, c08_err_pos); the five hand-written matchers equal BOTH the longest "
+             "prefix in the independently written literal syntaxes (c08_lang_*) AND the leftmost-first semantics of a generic regex AST "
+             "whose printed form is the regenerated source expression (c08_regex_*, c08_regex_source); integer value = the "
+             "mathematical value of the literal iff it fits int64, otherwise an error and no panic (c08_parseInt0_spec, "
+             "c08_integer_value, c08_integer_out_of_range); string/char escapes denote code points re-encoded as UTF-8, a string body "
+             "never contains a raw line break (c08_unquoteString_value, c08_escape_x80_two_bytes, c08_string_no_raw_linebreak - the "
+             "proof attempt exposed defect D11, fixed in /repo); float/duration for EVERY conversion function. Tied to "
+             "text/terminal/*.go by a differential run over literal-shaped, boundary and malformed byte strings x offsets, with the Go "
+             "conversions (strconv, time, utf8, regexp) called directly on the lexeme the model reports.",
+        note="strconv.ParseFloat, time.ParseDuration and the regexp engine for user expressions are universally quantified parameters "
+             "(contract: match length within the rest); strconv.ParseInt / UnquoteChar / utf8 are re-implemented and compared with "
+             "the real functions on every sampled input.",
+        technique="Lean 4 theorems (specification equality per terminal, regex AST semantics, language characterisations, value theorems) + differential correspondence + regenerated regexps and function bodies"),
     "C09": dict(
         text="Machine-checked proof (Lean 4) that every reader primitive of the model (own cursor computation, own guards, every index "
              "through get?) equals a byte-level specification over the rest of the file, stays within the file and never indexes "
